@@ -2,6 +2,8 @@ package importcache
 
 import (
 	"context"
+	"fmt"
+	"strings"
 	"sync"
 
 	"github.com/arr-ai/arrai/rel"
@@ -9,7 +11,17 @@ import (
 
 type importCacheKeyType int
 
-const importCacheKey importCacheKeyType = iota
+const (
+	importCacheKey importCacheKeyType = iota
+	inFlightKey
+)
+
+// inFlight is the chain of keys whose values are being computed by the calls that lead to the
+// current one. It is carried in the context handed to the add function.
+type inFlight struct {
+	key    string
+	parent *inFlight
+}
 
 // it is a simple cache component used by import behavior, and it can make cache code simple
 type importCache struct {
@@ -38,6 +50,44 @@ func GetOrAddFromCache(ctx context.Context, key string, add func() (rel.Expr, er
 	panic("GetOrAddFromCache: cache not in context")
 }
 
+// GetOrAddFromCacheCtx is GetOrAddFromCache for values whose computation may need further cached
+// values (a script that imports other scripts). add receives a context which records that the value
+// for key is being computed; asking for the same key again further down that call chain is an import
+// cycle, and is reported as an error instead of waiting forever for the value to appear.
+func GetOrAddFromCacheCtx(
+	ctx context.Context,
+	key string,
+	add func(ctx context.Context) (rel.Expr, error),
+) (rel.Expr, error) {
+	service := fromCache(ctx)
+	if service == nil {
+		panic("GetOrAddFromCacheCtx: cache not in context")
+	}
+	chain, _ := ctx.Value(inFlightKey).(*inFlight)
+	for c := chain; c != nil; c = c.parent {
+		if c.key == key {
+			return nil, fmt.Errorf("import cycle: %s", describeCycle(chain, key))
+		}
+	}
+	ctx = context.WithValue(ctx, inFlightKey, &inFlight{key: key, parent: chain})
+	return service.getOrAdd(key, func() (rel.Expr, error) { return add(ctx) })
+}
+
+// describeCycle renders the part of the chain from key back to key, e.g. "a -> b -> a".
+func describeCycle(chain *inFlight, key string) string {
+	keys := []string{key}
+	for c := chain; c != nil; c = c.parent {
+		keys = append(keys, c.key)
+		if c.key == key {
+			break
+		}
+	}
+	for i, j := 0, len(keys)-1; i < j; i, j = i+1, j-1 {
+		keys[i], keys[j] = keys[j], keys[i]
+	}
+	return strings.Join(keys, " -> ")
+}
+
 func newImportCache() *importCache {
 	c := &importCache{cache: map[string]rel.Expr{}}
 	c.cond = sync.NewCond(&c.mutex)
@@ -62,10 +112,11 @@ func (service *importCache) getOrAdd(key string, add func() (rel.Expr, error)) (
 	service.mutex.Lock()
 	defer func() {
 		if adding {
-			// If panicked trying to add, remove the key from the cache so
-			// someone else can have a go.
+			// If panicked or failed trying to add, remove the key from the cache and
+			// wake up the goroutines waiting for it so that someone else can have a go.
 			service.mutex.Lock()
 			delete(service.cache, key)
+			service.cond.Broadcast()
 		}
 		service.mutex.Unlock()
 	}()
